@@ -100,6 +100,11 @@ def histories(tier):
                   {"op": "session", "env": "E2", "runner": r, "package": "p", "declare": ["p.a.b"], "expr": "a.b", "bind": {"p.a.b": "v1"}}])
         H.append([{"op": "session", "env": "E1", "runner": r, "package": "p", "declare": ["p.a.b"], "expr": "a.b", "bind": {"p.a.b": "v0"}},
                   {"op": "session", "env": "E2", "runner": r, "expr": "a.b", "bind": {"a.b": "v1"}}])
+        # zone arguments in spellings that a process-wide memo could conflate (case, sign of a zero hour, leading zero)
+        TS = "timestamp('2020-06-01T12:30:00Z')"
+        for z1, z2 in (("US/Eastern", "us/eastern"), ("+00:45", "-00:45"), ("-00:45", "00:45"), ("05:30", "5:30"), ("-03:30", "+03:30"), ("Europe/Paris", "europe/paris"), ("UTC", "utc")):
+            H.append([{"op": "session", "env": "E1", "runner": r, "expr": f"{TS}.getHours('{z1}') * 100 + {TS}.getMinutes('{z1}') + x", "bind": {"x": "v0"}},
+                      {"op": "session", "env": "E2", "runner": r, "expr": f"{TS}.getHours('{z2}') * 100 + {TS}.getMinutes('{z2}') + x", "bind": {"x": "v1"}}])
         # D: one Environment, several programs for the same expression text with different host functions under the same names
         # (operator.* callables: reachable by both runners), and the same names bound to different functions in two environments
         for f1, f2 in (("neg", "abs"), ("abs", "neg"), ("pos", "neg")):
